@@ -414,6 +414,23 @@ func ruleC19Selector(c *Ctx, r *Result) {
 			}
 			r.Check(raw, "C19.3d", c.Name(fn)+"#elapsed-time-is-the-raw-difference", c.InstrPos(stabIf), "the value compared with MinStabilityPeriod is time.Sub(now, lastDecisionTime) itself")
 		}
+		// the period protects every accepted decision: whether the stability test is reached at all depends on there being a
+		// previous decision (lastDecisionTime), not on which mode that decision chose
+		gated := ""
+		for _, b := range fn.Blocks {
+			ifi, isIf := b.Instrs[len(b.Instrs)-1].(*ssa.If)
+			if !isIf || b == stabIf.Block() {
+				continue
+			}
+			d0, d1 := edgeDominates(b, b.Succs[0], stabIf.Block()), edgeDominates(b, b.Succs[1], stabIf.Block())
+			if d0 == d1 {
+				continue
+			}
+			if valueReadsField(ifi.Cond, fLastMode, 0) {
+				gated = c.InstrPos(ifi.Cond.(ssa.Instruction))
+			}
+		}
+		r.Check(gated == "", "C19.3d", c.Name(fn)+"#stability-test-reached-for-every-remembered-mode", c.InstrPos(stabIf), "no branch on the remembered mode decides whether the stability period is tested"+map[bool]string{true: "", false: " (branch at " + gated + ": after a decision for the excluded mode a different proposal is accepted inside the period)"}[gated == ""])
 		// the mode comparison must sit on the edge where time < period
 		r.Check(holdNested, "C19.3d", c.Name(fn)+"#mode-comparison-inside-stability-period", c.InstrPos(diffIf), "the mode comparison and the stability-period test are nested: the hold is entered exactly when the period is still running and the proposal differs")
 		bad := ""
